@@ -137,6 +137,17 @@ func evalC04(t *tm.Term, S []string, allKeys bool, r *core.Result) string {
 		}
 		if !bytes.Equal(a, b) {
 			f, fam, det := tm.WireDiff(a, b)
+			// a hidden error (behind a barrier, secondary, ...) whose own text
+			// changes at this process re-encodes differently inside the
+			// payload: that is the text finding of the hidden error, seen from outside
+			if c := hiddenTextCulprit(t, func(h error) error {
+				var dh error
+				wh := tm.Encode(h)
+				tm.AtU(S, func() { dh = tm.Decode(wh) })
+				return dh
+			}); c != "" {
+				return fail("reencode-at-U|text@"+typeTail(c), "re-encoding at the unknowing process (unknown: %v) changes field %s of layer %s because a hidden error of type %s shows a different text there: %s", S, f, fam, c, short(det))
+			}
 			return fail(fmt.Sprintf("reencode-at-U:%s@%s", f, typeTail(fam)), "re-encoding at the unknowing process (unknown: %v) does not reproduce the received message: field %s of layer %s: %s", S, f, fam, short(det))
 		}
 		// --- cross-validation of the two simulations of "unknowing"
@@ -177,6 +188,35 @@ func evalC04(t *tm.Term, S []string, allKeys bool, r *core.Result) string {
 	})
 }
 
+// hiddenTextCulprit looks at every hidden sub-tree of t (barrier cause,
+// secondary error, error-valued argument, mark reference) on its own: when
+// one of them shows a different text after `transfer`, it returns the type
+// of the layer whose text changes first ("" otherwise).
+func hiddenTextCulprit(t *tm.Term, transfer func(error) error) string {
+	var walk func(t *tm.Term) string
+	walk = func(t *tm.Term) string {
+		for _, hp := range hidingPositions(t) {
+			H := hiddenTerm(t, hp)
+			if H == nil {
+				continue
+			}
+			h := H.Build()
+			if h == nil {
+				continue
+			}
+			s0 := tm.ShapeOf(h)
+			if s1 := tm.ShapeOf(transfer(h)); s0.Diff(s1) != "" {
+				return culprit(s0, s1)
+			}
+			if c := walk(H); c != "" {
+				return c
+			}
+		}
+		return ""
+	}
+	return walk(t)
+}
+
 func evalC04Ubar(t *tm.Term) string {
 	return guarded("C04-Ubar", func() string {
 		e0 := t.Build()
@@ -189,6 +229,9 @@ func evalC04Ubar(t *tm.Term) string {
 		}
 		if w1 := tm.Encode(d); !bytes.Equal(tm.BlankBarrierPayloads(w0), tm.BlankBarrierPayloads(w1)) {
 			f, fam, det := tm.WireDiff(tm.BlankBarrierPayloads(w0), tm.BlankBarrierPayloads(w1))
+			if c := hiddenTextCulprit(t, func(h error) error { return tm.Decode(tm.HidePayloadTypes(tm.Encode(h))) }); c != "" {
+				return fail("reencode-at-Ubar|text@"+typeTail(c), "re-encoding at a process that cannot unmarshal the payloads changes field %s of layer %s because a hidden error of type %s shows a different text there: %s", f, fam, c, short(det))
+			}
 			return fail(fmt.Sprintf("reencode-at-Ubar:%s@%s", f, typeTail(fam)), "re-encoding at a process that cannot unmarshal the payloads does not reproduce the message: field %s of layer %s: %s", f, fam, short(det))
 		}
 		return ""
